@@ -238,6 +238,50 @@ func (p *Program) modTarget(ms *modSummary, addr ssa.Value) {
 		ms.globals[a] = true
 	case *ssa.Alloc, *ssa.FreeVar:
 		// local variable (possibly captured from the enclosing function) or fresh object
+	case *ssa.UnOp:
+		// *ptrs[i] = …: a pointer taken out of a local array (or variable) of pointers; the targets are what
+		// the function put into it
+		var cell *ssa.Alloc
+		if a.Op == token.MUL {
+			switch y := a.X.(type) {
+			case *ssa.IndexAddr:
+				cell, _ = y.X.(*ssa.Alloc)
+			case *ssa.Alloc:
+				cell = y
+			}
+		}
+		if cell == nil || cell.Referrers() == nil {
+			ms.unknown = true
+			return
+		}
+		found := 0
+		for _, r := range *cell.Referrers() {
+			var stores []*ssa.Store
+			switch y := r.(type) {
+			case *ssa.IndexAddr:
+				for _, rr := range *y.Referrers() {
+					if st, ok := rr.(*ssa.Store); ok && st.Addr == ssa.Value(y) {
+						stores = append(stores, st)
+					}
+				}
+			case *ssa.Store:
+				if y.Addr == ssa.Value(cell) {
+					stores = append(stores, y)
+				}
+			}
+			for _, st := range stores {
+				switch st.Val.(type) {
+				case *ssa.FieldAddr, *ssa.IndexAddr, *ssa.Global, *ssa.Alloc:
+					found++
+					p.modTarget(ms, st.Val)
+				default:
+					ms.unknown = true
+				}
+			}
+		}
+		if found == 0 {
+			ms.unknown = true
+		}
 	default:
 		ms.unknown = true
 	}
